@@ -1,5 +1,6 @@
 import RxnModel.Proofs.FilesLineage
 import RxnModel.Proofs.FilesMulti
+import RxnModel.Proofs.FilesCompose
 import RxnModel.Proofs.FilesSteps
 /-!
 # C09 — files needed by retained checkpoints or live tables are never deleted
@@ -18,22 +19,30 @@ PARTIAL, by nature and by finding:
   is already taken overwrites that file (`clobber`) — an overwrite is a deletion of the older content — and
   `Checkpoint.Destroy` deletes by name (`rmWals`). The global theorems therefore say: no file — table or WAL —
   referenced by a retained checkpoint document is deleted or overwritten.
-* the global invariant `Safe` (every needed file exists) is proved for two families of histories:
-  - `no_needed_file_deleted_concurrent_partial`: any number of operators running at the same time, opened empty, each
-    in its own directory, never reopened (the deployment without rescale and restart);
-  - `no_needed_file_deleted_lineage_partial`: one operator over any number of crash + reopen generations, one running
-    instance at a time (`no_needed_file_deleted_partial` is its one-generation case, which also lets a crashed
-    instance's leftover garbage be collected).
-  Not proved: concurrent operators that also restart (the two scopes are not composed), and restores that share tables.
+* the global invariant `Safe` (every needed file exists) is proved for three families of histories:
+  - `no_needed_file_deleted_composed_partial`: any number of operators running at the same time, each of which may
+    crash and be restarted — any number of times, from any checkpoint handle of its own lineage the job still retains,
+    in a directory of its own — while the others keep running (the deployment with restarts, without rescale);
+  - `no_needed_file_deleted_concurrent_partial`: its no-restart case, which also lets a crashed instance's leftover
+    garbage be collected;
+  - `no_needed_file_deleted_lineage_partial`: its one-operator case (`no_needed_file_deleted_partial` is the
+    one-generation case of that, again with a crashed instance's leftover garbage).
+  In all of them the JOB's retained set changes only by the job's own actions (`ckpt` adds a handle, `jobDrop` and
+  `jobAbandon` remove handles); a restart (`openFrom`) removes nothing.
+  Not proved: restores that share tables between running operators (rescale), reopening in the directory of an
+  earlier instance, and a restart from a retained checkpoint that is not the newest one the job retains of that
+  operator (refuted: `d68_counterexample`).
   The full statement
     `∀ as s, run {} as = some s → Safe s`   (any number of instances, crashes, releases, restores, rescales)
   is FALSE of the code as it is: `d25_counterexample` (an instance released inside a living process deletes the files
   of its retained checkpoint), `d34_counterexample` (after a rescale-out a table is deleted although another running
   instance, whose key range does not overlap it, still lists it), `d50_counterexample` (a same-directory reopen drops
-  the document entries of older retained checkpoints). These are open findings (D25, D34, D50). `d63_counterexample`
-  keeps the old D63 behaviour (a background write of a dropped instance landing on a table file name the reopened
-  instance uses) as a regression witness; the code now quiesces the previous instance
-  (`previous_instance_quiesced_before_reopen`).
+  the document entries of older retained checkpoints), `d68_counterexample` (an operator restarted from an older
+  retained checkpoint deletes the tables of the newer retained checkpoints of its predecessor), and
+  `d63_counterexample` (a table write of an instance dropped inside a living process landing on a file name the
+  reopened instance uses: repaired as D63 for tasks in flight — `previous_instance_drained_before_reopen` — but still
+  possible for writes the closed instance accepts afterwards, D70, `late_write_window_open`). These are open findings
+  (D25, D34, D50, D68, D70).
 * for ALL histories (any number of instances, restores, rescales, releases) the theorems
   `table_file_removed_only_by_justified_collect`, `error_means_keep` and
   `wal_file_removed_only_by_retention_or_overwrite` say who can remove a file and why; `wal_gc` is the exact file
@@ -70,14 +79,15 @@ theorem retained_checkpoint_listed_partial (range : KGRange) (nbrs : List KGRang
 /-- Lineage: any number of generations of one operator. An instance runs (flushes, compactions, checkpoints,
 retention updates that drop only checkpoints the job has dropped, snapshots, collections of any unreachable table
 object — written by the instance or loaded from the document — at any moment with any neighbour answers), its
-process dies, and a new instance is opened from ONE checkpoint handle the job still retains (any retained handle of
-any earlier instance, not necessarily the newest), when no other instance is running; and so on. In every state every
+process dies, and a new instance is opened from ONE checkpoint handle the job still retains — the newest the job
+retains (of any earlier instance; to go back further the job first gives up the newer ones, `jobAbandon`) — when no
+other instance is running; and so on. The job's retained set changes only by `ckpt`, `jobDrop`, `jobAbandon`. In every state every
 file referenced by a job-retained checkpoint of any generation and every table of the running instance's level list
 is in the file store.
-Scope (`inScopeL`), i.e. what remains excluded: an instance released inside a living process (D25: its objects die
-while a successor uses the files); a background write of the previous instance landing after the directory was
-reopened (`lateWrite`, the old D63 behaviour) is excluded too, but that is a rule of the code now:
-`previous_instance_quiesced_before_reopen`; several instances alive at once and restores from several handles (rescale;
+Scope (`inScopeL`), i.e. exactly what is excluded: a restart from a retained checkpoint while the job retains a newer
+one (D68, `d68_counterexample`); an instance released inside a living process (D25: its objects die while a successor
+uses the files) and with it a table write of such an instance landing after the directory was reopened (`lateWrite`:
+D63 repaired, D70 open); reopening in an earlier instance's directory (D50); several instances alive at once and restores from several handles (rescale;
 D34: holders whose key range does not overlap a table are never consulted); cleanups run by a dead process. -/
 theorem no_needed_file_deleted_lineage_partial (range : KGRange) (nbrs : List KGRange) (as : List Act) (s : State)
     (h : runL (init1 range nbrs) as = some s) : ∀ f ∈ needed s, f ∈ s.files := by
@@ -149,6 +159,74 @@ def concurrentTrace : List Act :=
 example : (runN {} concurrentTrace).map (fun s => (s.files, needed s)) =
     some ([.sst "b2", .wal ⟨0, 1, 0⟩, .wal ⟨1, 1, 0⟩, .sst "b1", .sst "a2", .sst "b0"],
           [.sst "b2", .sst "a2", .wal ⟨0, 1, 0⟩, .sst "b1", .sst "b0", .wal ⟨1, 1, 0⟩]) := by decide
+
+/-! ## the composition: operators running at the same time, each crashing and restarting (no rescale) -/
+
+/-- Composition of the two scopes above: any number of operators ("lineages"), each opened empty at any moment in a
+storage directory of its own, running at the same time with arbitrarily interleaved flushes, compactions, checkpoints,
+job drops, retention updates that drop only checkpoints the job has dropped, snapshots, failed redeploys and
+collections of any unreachable table object — written by the instance or loaded from a document — of any running
+instance at any moment with any neighbour answers. Any operator's process may die at any time, and the operator is
+then restarted, any number of times: a new instance, in a directory of its own, restored from ONE checkpoint handle
+the job still retains — the newest the job retains of that operator (`newestOf`; written by any earlier instance of
+it; to roll back further the job first gives up the newer checkpoints, `jobAbandon`) — while no instance of that
+operator is running; the other operators keep running meanwhile. The job's retained set changes only by the job's
+own actions (`ckpt`, `jobDrop`, `jobAbandon`): a restart drops nothing. In every state every file — table or WAL — referenced by a job-retained checkpoint of any instance of any
+operator and every table of every running instance's level list is in the file store.
+The invariant behind it (`InvC`, `Proofs/FilesCompose.lean`): tables never cross lineages; one running instance per
+lineage, and it is the newest; a loaded table is pinned by the restored checkpoint until the job has dropped it, and
+then no retained handle of an earlier instance of the lineage is left; WAL names referenced from a later directory
+belong to a later instance of the same lineage.
+Scope (`inScopeC`), i.e. exactly what is excluded: a restart from a retained checkpoint while the job retains a newer
+one of that operator (D68, `d68_counterexample`); restores from several handles or from a handle of a lineage that is
+running (rescale, shared tables: D34); reopening in the directory of an earlier instance (D50); an instance released
+inside a living process (D25) and with it a table write of such an instance landing later (`lateWrite`: D63 repaired
+for tasks in flight, D70 open for writes accepted after `Close`); cleanups run by a dead process. Note that the job as
+built reacts to a lost operator by redeploying the whole assembly, and the surviving operators then take the
+in-process path (release + same-directory reopen), which is outside this scope and refuted by D25. -/
+theorem no_needed_file_deleted_composed_partial (as : List Act) (s : State) (h : runC {} as = some s) :
+    ∀ f ∈ needed s, f ∈ s.files :=
+  (runC_invC invC_init h).safe
+
+/-- …and every job-retained checkpoint of every instance of every operator is still listed, with the same tables and
+WALs, in the checkpoint list (= saved document) of the instance that wrote it. -/
+theorem retained_checkpoint_listed_composed_partial (as : List Act) (s : State) (h : runC {} as = some s) :
+    ∀ hd ∈ s.retained, ∃ d, s.insts[hd.writer]? = some d ∧
+      ∃ c ∈ d.ckpts, c.id = hd.id ∧ c.tables = hd.tables ∧ c.wals = hd.wals := by
+  intro hd hh
+  obtain ⟨_, d, hd', ⟨c, hc, hid⟩, hall⟩ := (runC_invC invC_init h).own hd hh
+  exact ⟨d, hd', c, hc, hid, hall c hc hid⟩
+
+/-- …and at most one instance of an operator runs at a time, the newest of its lineage. -/
+theorem one_running_instance_per_operator (as : List Act) (s : State) (h : runC {} as = some s) (i j : Nat)
+    (x y : Inst) (hx : s.insts[i]? = some x) (hy : s.insts[j]? = some y) (hl : x.life = .alive) (hlin : y.lin = x.lin) :
+    j ≤ i ∧ (y.life = .alive → i = j) :=
+  ⟨(runC_invC invC_init h).newest i j x y hx hy hl hlin,
+   fun hl' => (runC_invC invC_init h).onealive i j x y hx hy hl hl' hlin.symm⟩
+
+/-- two operators; operator 0 dies and is restarted as instance 2 from its checkpoint 1 while operator 1 keeps
+running; instance 2 compacts the restored table away, both take job checkpoint 2, the job drops 1, both apply the
+retention update, instance 2's collection deletes the first generation's table file; then operator 1 dies and is
+restarted as instance 3 -/
+def composedTrace : List Act :=
+  [.openFresh ⟨0, 4⟩ 0 [⟨4, 8⟩] 0, .openFresh ⟨4, 8⟩ 0 [⟨0, 4⟩] 1, .flush 0 ⟨"a0", 0, 3⟩, .flush 1 ⟨"b0", 4, 7⟩,
+   .ckpt 0 1 ⟨0, 0, 0⟩, .ckpt 1 1 ⟨1, 0, 0⟩, .flush 0 ⟨"a1", 1, 2⟩, .crash 0,
+   .openFrom ⟨0, 4⟩ 1 [⟨4, 8⟩] [0] 1 2, .flush 2 ⟨"c0", 0, 3⟩, .flush 1 ⟨"b1", 5, 5⟩,
+   .compact 2 ["a0", "c0"] [⟨"c1", 0, 3⟩], .collect 2 "c0" [.no], .ckpt 2 2 ⟨2, 1, 0⟩, .ckpt 1 2 ⟨1, 1, 0⟩,
+   .jobDrop 1, .retain 2 [2], .retain 1 [2], .collect 2 "a0" [.no], .crash 1,
+   .openFrom ⟨4, 8⟩ 2 [⟨0, 4⟩] [1] 2 3, .flush 3 ⟨"d0", 4, 7⟩]
+
+example : (runC {} composedTrace).map (fun s => (s.files, needed s)) =
+    some ([.sst "d0", .wal ⟨1, 1, 0⟩, .wal ⟨2, 1, 0⟩, .sst "c1", .sst "b1", .sst "a1", .sst "b0"],
+          [.sst "c1", .sst "d0", .sst "b1", .sst "b0", .sst "b1", .sst "b0", .wal ⟨1, 1, 0⟩, .sst "c1",
+           .wal ⟨2, 1, 0⟩]) := by decide
+
+/-- while the job retains checkpoint 1 the restarted instance cannot collect the restored table -/
+example : runC {} (composedTrace.take 15 ++ [.collect 2 "a0" [.no]]) = none := by decide
+
+/-- restarting an operator whose instance is still running is outside the scope (and possible in the model) -/
+example : runC {} (composedTrace.take 7 ++ [.openFrom ⟨0, 4⟩ 1 [⟨4, 8⟩] [0] 1 2]) = none ∧
+    (run {} (composedTrace.take 7 ++ [.openFrom ⟨0, 4⟩ 1 [⟨4, 8⟩] [0] 1 2])).isSome = true := by decide
 
 /-! ## WAL deletion at the save after a retention update -/
 
@@ -319,15 +397,23 @@ example : decision ⟨0, 4⟩ ⟨"t", 2, 5⟩ [(⟨4, 8⟩, .no)] = .delete ∧
 /-! ## the unrestricted statement is false of the code as it is (open findings) -/
 
 /-- D63, repaired (f9820ca): `Operator.HandleDeploy` closes the previous database before `dkv.Open`, and `DB.Close`
-waits for every flush and compaction the instance enqueued — read from the source on every run (hard facts
-`c09DeployClosesFirst`, `c09CloseWaits`). This is what makes `lateWrite` (below: the old behaviour) impossible and
-justifies its exclusion from the scopes of the global theorems. -/
-theorem previous_instance_quiesced_before_reopen : quiesced = true := by decide
+waits for every flush and compaction the instance had enqueued — read from the source on every run (hard facts
+`c09DeployClosesFirst`, `c09CloseWaits`). This rules out a late write of a task that was in flight at the redeploy;
+it does NOT rule out `lateWrite` altogether (next theorem). -/
+theorem previous_instance_drained_before_reopen : drained = true := by decide
 
-/-- D63, the OLD behaviour (regression witness): the operator is redeployed inside a living process. Instance 0 is dropped (`release`) while one of its
-compactions is still writing; instance 1 is opened from checkpoint 1 in the same directory and flushes table "t1" —
-the name instance 0's numbering had reserved for its compaction output. When that write lands, the live table "t1" of
-the running instance 1 is overwritten. -/
+/-- D70 (open): `DB.Close` is one wait on the pending-task counter — it drains, it does not stop intake — and the
+operator's event goroutine applies a batch to the old store without the operator's mutex until `dkv.Open` has
+returned (`c09WritersFenced` = 0: no closed flag read by `Put`/`rotateMemtable`/`enqueue`, `processEventBatch` not
+under `o.mu`). A flush enqueued after `Close` returned writes a table file, under the old instance's numbering, into
+the directory the new instance has reopened. So `lateWrite` is still a behaviour of the code, in a narrower window;
+every global theorem excludes it. (Breaks, as it should, when the window is closed in the source.) -/
+theorem late_write_window_open : quiesced = false := by decide
+
+/-- The late write (D63 for a task in flight — repaired; D70 for a write accepted after `Close` — open): the operator is
+redeployed inside a living process. Instance 0 is dropped (`release`); instance 1 is opened from checkpoint 1 in the
+same directory and flushes table "t1" — the name instance 0's numbering gives its next table too. When instance 0's
+write lands, the live table "t1" of the running instance 1 is lost. -/
 def d63Trace : List Act :=
   [.openFresh ⟨0, 8⟩ 0 [] 0, .flush 0 ⟨"t0", 0, 7⟩, .ckpt 0 1 ⟨0, 0, 0⟩, .release 0,
    .openFrom ⟨0, 8⟩ 1 [] [0] 1 0, .flush 1 ⟨"t1", 0, 7⟩, .lateWrite 0 ⟨"t1", 0, 7⟩]
@@ -335,16 +421,37 @@ def d63Trace : List Act :=
 theorem d63_counterexample :
     (run {} d63Trace).map (fun s => (liveTables s, missing s)) = some (["t1", "t0"], [File.sst "t1"]) := by decide
 
+/-- D68 (open): the job retains checkpoints 1 and 2 of operator X (both list table t0). X's process dies and the
+operator is restarted as Y, in a directory of its own, from the OLDER retained checkpoint 1. Y knows only the
+checkpoint it restored from: it compacts t0 away, takes checkpoint 3, the job drops checkpoint 1 — and only 1 —, Y's
+retention update (the job's list: 2 and 3) drops the restored checkpoint, and the collection of Y's loaded t0 object
+deletes the file (its key groups lie inside Y's own range, nobody is asked). Checkpoint 2, which the job never dropped
+and whose document entry is intact, has lost its table. The same history with the job giving up checkpoint 2 first
+(`jobAbandon 2`) is inside the scope of the composed theorem. -/
+def d68Trace : List Act :=
+  [.openFresh ⟨0, 8⟩ 0 [] 0, .flush 0 ⟨"t0", 0, 7⟩, .ckpt 0 1 ⟨0, 0, 0⟩, .ckpt 0 2 ⟨0, 1, 0⟩, .crash 0,
+   .openFrom ⟨0, 8⟩ 1 [] [0] 1 1, .flush 1 ⟨"u0", 0, 7⟩, .compact 1 ["t0", "u0"] [⟨"u1", 0, 7⟩],
+   .ckpt 1 3 ⟨1, 1, 0⟩, .jobDrop 1, .retain 1 [2, 3], .collect 1 "t0" []]
+
+theorem d68_counterexample :
+    (run {} d68Trace).map (fun s => (s.floor, s.retained.map (fun h => (h.writer, h.id)),
+        (docEntry s 0 2).map (fun c => uris c.tables), missing s)) =
+      some (1, [(1, 3), (0, 2)], some ["t0"], [File.sst "t0"]) ∧
+    runC {} d68Trace = none ∧
+    (runC {} (d68Trace.take 5 ++ [.jobAbandon 2] ++ d68Trace.drop 5)).map missing = some [] := by decide
+
 /-- D50: an instance reopened in the directory of the instance it restores from saves a checkpoints document that
-starts at the restored checkpoint: the entry of the older checkpoint 1, which the job still retains, is gone (the
-files it references are still there). -/
+starts at the restored checkpoint 2: the directory's document (now instance 1's) has an entry for checkpoint 2 and
+none for the older checkpoint 1, which the job still retains (in this trace the files checkpoint 1 references are
+still there). -/
 def d50Trace : List Act :=
   [.openFresh ⟨0, 8⟩ 0 [] 0, .flush 0 ⟨"t0", 0, 7⟩, .ckpt 0 1 ⟨0, 0, 0⟩, .ckpt 0 2 ⟨0, 1, 0⟩, .crash 0,
    .openFrom ⟨0, 8⟩ 1 [] [0] 2 0, .ckpt 1 3 ⟨0, 2, 0⟩]
 
 theorem d50_counterexample :
-    (run {} d50Trace).map (fun s => (s.retained.map (fun h => (h.writer, h.id)), docEntry s 0 1, missing s)) =
-      some ([(1, 3), (0, 2), (0, 1)], none, []) := by decide
+    (run {} d50Trace).map (fun s => (s.retained.map (fun h => (h.writer, h.id)), s.docs,
+        (docEntry s 1 1).isSome, (docEntry s 1 2).isSome, missing s)) =
+      some ([(1, 3), (0, 2), (0, 1)], [1], false, true, []) := by decide
 
 
 /-- D25: open; write; checkpoint 1; the instance is released inside the living process (operator redeploy); the next
